@@ -2,6 +2,7 @@
 import numpy as np
 from vlib import gen, dense as D
 from vlib.run import corr, do, impl, opt
+from vlib import impl_np as NP
 
 RULE = ('(valid map, optional mask, operand list): all 24 one-qubit maps x all operands (exhaustive), random valid maps N<=6 built by the model '
         'from rotations and sign flips, masks of every size, embed; both backends. Oracle = dense ordered product of the map rows. '
@@ -42,8 +43,12 @@ def dense_image(m, a):
 
 
 def c_tr_corr(ctx, args):
-    be, m, mask, l = args
-    return corr(ctx, be, 'transform', [m, opt(mask), l], [m, mask, l])
+    be, m, mask, l = args[:4]
+    NP.set_layout(args[4] if len(args) > 4 else 'c')
+    try:
+        return corr(ctx, be, 'transform', [m, opt(mask), l], [m, mask, l])
+    finally:
+        NP.set_layout('c')
 
 
 def c_tr_dense(ctx, args):
@@ -116,7 +121,8 @@ def run(ctx):
         m = gen.rmap(rng, ctx.model, n)
         l = gen.rplist(rng, N, rng.randint(1, 5))
         be = rng.choice(backends)
-        do(ctx, 'tr_corr', [be, m, mask, l], nontrivial=(be, str(m), str(mask), str(l)) if _nt(m, l) else None, sample=True)
+        lay = rng.choice(['c', 'c', 'strided', 'fortran', 'colslice']) if be == 'np' else 'c'
+        do(ctx, 'tr_corr', [be, m, mask, l, lay], nontrivial=(be, str(m), str(mask), str(l)) if _nt(m, l) else None, sample=True)
         if mask is None and N <= 4:
             do(ctx, 'tr_dense', [be, m, l])
         if mask is not None:
